@@ -32,7 +32,14 @@ from ..build import frac
 from ..core import digest
 from ..tlc import run_tlc, TLCFailure
 
+import os
+
 MODULE = "C04_LRTDP"
+# which fallback of the returned policy the reference machine describes: 1 = deterministic on the planner's own
+# greedy action at every state with a stored action order (the repaired _tear_down_plan_on), 0 = deterministic
+# only at states with a stored value (the behaviour before that repair; for experiments only)
+MODEL_REPAIR = 0 if os.environ.get("C04_MODEL_FALLBACK") == "uniform" else 1
+SIG_TIED = "C04:LRTDP.plan_on:policy-at-solved-never-updated-state:unverified-tied-action"
 KB = 16
 SC = 2 ** KB
 
@@ -357,6 +364,40 @@ def _proxy_classes():
     return Dist, DictDistribution, Listener
 
 
+class Relabelled:
+    """The built MDP under other state labels (label kinds that harness/build.py does not offer): signed integers
+    -1, -2, ... and tuples (-1, 0), (-2, 0), ...  In CPython hash(-1) == hash(-2), so these are distinct live
+    states with equal hashes."""
+
+    def __init__(self, b, kind):
+        from msdm.core.distributions import DictDistribution
+        self.DD = DictDistribution
+        self.inner = b.mdp
+        self.ext = [-(i + 1) if kind == "negint" else (-(i + 1), 0) for i in range(len(b.slabel))]
+        self.to_in = {e: l for e, l in zip(self.ext, b.slabel)}
+        self.to_ext = {i: e for i, e in enumerate(self.ext)}
+        self.idx = b.sidx
+        self.discount_rate = b.mdp.discount_rate
+
+    def _map(self, d):
+        return self.DD({self.to_ext[self.idx(ns)]: p for ns, p in d.items()})
+
+    def actions(self, s):
+        return self.inner.actions(self.to_in[s])
+
+    def reward(self, s, a, ns):
+        return self.inner.reward(self.to_in[s], a, self.to_in[ns])
+
+    def is_absorbing(self, s):
+        return self.inner.is_absorbing(self.to_in[s])
+
+    def next_state_dist(self, s, a):
+        return self._map(self.inner.next_state_dist(self.to_in[s], a))
+
+    def initial_state_dist(self):
+        return self._map(self.inner.initial_state_dist())
+
+
 class Recorder:
     """Wraps a built MDP; hands out logging / scripted distributions; snapshots the planner's tables."""
 
@@ -370,9 +411,18 @@ class Recorder:
         self.snaps = []
         self.planner = None
         self.discount_rate = b.mdp.discount_rate
+        # representation of actions(): a fresh tuple per call, or ONE list / tuple object shared by all states
+        # (what QuickMDP(actions=[...]) does); only possible when every state lists the same actions in the same order
+        self.shared = None
+        kind = m.get("shared_actions")
+        if kind and all(m["aord"][t] == m["aord"][0] for t in range(m["N"])):
+            objs = [b.alabel[a - 1] for a in m["aord"][0]]
+            self.shared = objs if kind == "list" else tuple(objs)
 
     # ---- the MDP interface LRTDP uses
     def actions(self, s):
+        if self.shared is not None:
+            return self.shared
         i = self.b.sidx(s)
         return tuple(self.b.alabel[a - 1] for a in self.m["aord"][i])
 
@@ -455,6 +505,9 @@ def real_run(m, rep, *, script=None, seed=0, randomize=False, iterations=3000, l
 
     def enter(inst, scr):
         b_ = build.build_mdp(inst, rng=random.Random(digest([inst["P"], inst["R"], rep])), **rep)
+        if m.get("relabel"):
+            ad = Relabelled(b_, m["relabel"])
+            b_ = build.Built(mdp=ad, m=b_.m, slabel=list(ad.ext), alabel=b_.alabel, rep=b_.rep, explicit_list=b_.explicit_list)
         r_ = Recorder(b_, inst, script=scr)
         r_.planner = planner
         cur.update(b=b_, rec=r_, hv=hvals(inst))
@@ -505,10 +558,13 @@ def real_run(m, rep, *, script=None, seed=0, randomize=False, iterations=3000, l
     pol = {}
     for s in range(N):
         if m["abs"][s]:
+            res.policy.action_dist(b.slabel[s])      # the returned policy is queried at every state
             continue
         d = res.policy.action_dist(b.slabel[s])
         pol[s] = {b.aidx(a): float(p) for a, p in d.items() if p > 0}
     out["pol"] = pol
+    out["pol_unavailable"] = {s: sorted(a for a in acts if not m["avail"][s][a]) for s, acts in pol.items()
+                              if any(not m["avail"][s][a] for a in acts)}
     # reads of the value table (stored or defaulted) at every absorbing state
     out["V_read_abs"] = {s: float(res.V[b.slabel[s]]) for s in range(N) if m["abs"][s]}
     return out
@@ -576,6 +632,10 @@ def judge_run(ctx, m, run, jr, case, *, pyx=False, orc=None):
                  f"(of positive probability: {pos_unl})")
         else:
             fail("C04:LRTDP.lrtdp:returned-with-unlabelled-initial-state", f"plan_on returned with initial states {pos_unl} not labelled solved")
+        return False
+    if run.get("pol_unavailable"):
+        fail("C04:LRTDP.plan_on:returned-policy-plays-unavailable-action",
+             f"the returned policy puts mass on actions that are not available: {run['pol_unavailable']} (policy {run['pol']})")
         return False
     if jr is None:
         raise TLCFailure(f"no judge record for {case.get('tag')}")
@@ -651,7 +711,10 @@ def judge_run(ctx, m, run, jr, case, *, pyx=False, orc=None):
         raise TLCFailure(f"policy return {pinit} above the optimum {vinit}: oracle broken ({case.get('tag')})")
     if vinit - pinit > F(margin) * ninit + F(slack(ninit)):
         unstored = [s for s in range(N) if not m["abs"][s] and s not in run["V"]]
-        fail("C04:LRTDP.plan_on:policy-return-outside-margin",
+        # own signature for one precise shape: a state the labelling procedure looked at (it has a stored action
+        # order) but never updated, at which the returned policy is not the single action the labels certify
+        tied = [s for s in unstored if s in run["orders"] and len(run["pol"].get(s, {})) > 1]
+        fail(SIG_TIED if tied else "C04:LRTDP.plan_on:policy-return-outside-margin",
              f"exact return {float(pinit)} of the returned policy vs optimum {float(vinit)}: gap {float(vinit - pinit)} > "
              f"margin*N^pi = {margin}*{float(ninit)} (returned policy {run['pol']}, states without a stored value {unstored})")
     # ---- clause 5: absorbing states are worth 0 in the reported values and the initial value
@@ -743,7 +806,7 @@ def trace_record(m, run, tag):
     rec = {k: m[k] for k in ("N", "K", "PD", "GN", "GD", "ID", "abs", "avail", "P", "R", "p0", "KB", "EPS", "L", "h",
                              "zl", "lst", "i0")}
     aord = [list(run["orders"].get(s) or m["aord"][s]) for s in range(m["N"])]
-    rec.update(mode="trace", oracle=1, rand=0, aord=aord, tag=tag, snaps=snaps,
+    rec.update(mode="trace", oracle=1, rand=0, repair=MODEL_REPAIR, aord=aord, tag=tag, snaps=snaps,
                script=[{"k": c["k"], "s": c["s"], "a": c["a"], "t": c["t"]} for c in run["choices"]])
     return rec
 
@@ -771,6 +834,8 @@ def same_final(m, run, rec):
     for s, o in run["orders"].items():
         if list(o) != list(rec["ord"][s]):
             return f"action order of {s}: {o} vs machine {rec['ord'][s]}"
+    if set(run["orders"]) != {s - 1 for s in rec["seen"]}:
+        return f"states with a stored action order {sorted(run['orders'])} vs machine {sorted(s - 1 for s in rec['seen'])}"
     sup = rec["term"]["sup"]
     for s, acts in run["pol"].items():
         if {a + 1 for a in acts} != set(fget(sup, s + 1)):
@@ -805,6 +870,7 @@ def pipeline_mc(ctx, batch, reps, *, inject=None):
     """MC over the batch + replay of every emitted history + judgement of every real run."""
     for i, m in enumerate(batch):
         m["tag"] = f"mc{i + 1}"
+        m["repair"] = MODEL_REPAIR
     # (-coverage is not used: with the recursive labelling operator it slows TLC down by orders of magnitude;
     #  per-action counts are taken from the emitted histories instead)
     res = run_tlc(ctx.workdir / "mc", MODULE, CFG_MC, files={"batch.json": batch}, env={"BATCH_FILE": "batch.json"})
@@ -956,6 +1022,14 @@ def make_free_cases(rng, n, tier):
             cases.append({"m": m, "rep": dict(REPS[rng.randrange(len(REPS))]), "seed": rng.randrange(10 ** 6),
                           "randomize": True, "iterations": 4000, "exact": True})
             continue
+        if len(cases) % 16 in (2, 10):                # targeted family "exact tie at a labelled, never updated state"
+            m = make_deeptie_instance(rng, kb=20, mode="free", extra_init=(len(cases) % 16 == 10))
+            rz = len(cases) % 32 < 16 or len(cases) % 16 == 10
+            if rz:
+                m["shared_actions"] = m["shared_actions"] or "list"
+            cases.append({"m": m, "rep": dict(REPS[rng.randrange(len(REPS))]), "seed": rng.randrange(10 ** 6),
+                          "randomize": rz, "iterations": 4000, "exact": True})
+            continue
         if len(cases) % 16 == 6:                      # targeted family "discount-sensitive fallback"
             m = make_flip_instance(rng, kb=20, mode="free")
             cases.append({"m": m, "rep": dict(REPS[rng.randrange(len(REPS))]), "seed": rng.randrange(10 ** 6),
@@ -988,6 +1062,13 @@ def make_free_cases(rng, n, tier):
                 m["i0"][rng.choice(z)] = 1
         cases.append({"m": m, "rep": dict(REPS[rng.randrange(len(REPS))]), "seed": rng.randrange(10 ** 6),
                       "randomize": rng.random() < 0.5, "iterations": its, "exact": exact})
+    # label kinds with colliding hashes (hash(-1) == hash(-2)) and one shared actions() object
+    for c in cases:
+        x = rng.random()
+        if x < 0.2:
+            c["m"]["relabel"] = "negint" if x < 0.1 else "negtuple"
+        if "shared_actions" not in c["m"] and rng.random() < 0.3:
+            c["m"]["shared_actions"] = rng.choice(["list", "tuple"])
     # planner-reuse histories: the planner object has planned the same MDP (15%) or another case's MDP (25%) before
     for k, c in enumerate(cases):
         x = rng.random()
@@ -1136,6 +1217,76 @@ def make_tie_instance(rng, *, kb=KB, mode="mc"):
     return m
 
 
+def make_deeptie_instance(rng, *, kb=KB, mode="mc", rand=0, extra_init=False):
+    """Targeted family "exact tie at a state that is labelled but never updated".  s0 has a stochastic action x
+    with outcomes g (absorbing) and t; under the histories that never sample t, _check_solved reaches t from s0,
+    finds its heuristic consistent (residual within the margin without any backup) and labels it.  At t the
+    verified greedy action a (to g, reward ra) is exactly tied with b (reward 0, to u) because u's admissible
+    heuristic is the optimistic ra / gamma while u is really worth `loss` less; u is never explored when a comes
+    first in t's action order.  The returned policy at t must be the single action the labels certify.
+    All states list both actions (so actions() can be one shared list object); extra_init adds a second initial
+    state s1 whose first visit can come after t has been labelled."""
+    g_n, g_d = rng.choice([(1, 1), (1, 2)])
+    ra = rng.choice([-1, -2])
+    loss = rng.choice([2, 3])
+    hu = F(ra) * g_d / g_n
+    N = 5 if extra_init else 4
+    perm = list(range(N))
+    rng.shuffle(perm)
+    s0, t, u, g = perm[:4]
+    s1 = perm[4] if extra_init else None
+    K = 2
+    P = [[[0] * N for _ in range(K)] for _ in range(N)]
+    R = [[[0] * N for _ in range(K)] for _ in range(N)]
+    # s0: both actions x, x' -> {g, t} (x' pays one less: never greedy)
+    x = rng.randrange(2)
+    for k, pay in ((x, 0), (1 - x, -1)):
+        P[s0][k][g], P[s0][k][t] = 1, 1
+        R[s0][k][g], R[s0][k][t] = rng.choice([0, -1]) + pay, pay
+    a = rng.randrange(2)
+    P[t][a][g] = 2
+    R[t][a][g] = ra
+    P[t][1 - a][u] = 2
+    for k, pay in ((0, 0), (1, -1)):
+        P[u][k][g] = 2
+        R[u][k][g] = int(hu) - loss + pay
+    for k in range(K):
+        P[g][k][rng.choice(perm)] = 2
+        R[g][k] = [rng.choice([-3, 0, 4]) for _ in range(N)]
+    if extra_init:
+        for k, pay in ((0, -1), (1, -2)):
+            P[s1][k][g] = 2
+            R[s1][k][g] = pay
+    p0 = [0] * N
+    if extra_init:
+        p0[s0], p0[s1] = 1, 1
+    else:
+        p0[s0] = 2
+    m = {"N": N, "K": K, "PD": 2, "GN": g_n, "GD": g_d, "ID": 2, "abs": [1 if q == g else 0 for q in range(N)],
+         "avail": [[1, 1] for _ in range(N)], "P": P, "R": R, "p0": p0}
+    vs = pyoracle.optimal_value(m)
+    eps = F(1, rng.choice([8, 16]))
+    sc = 2 ** kb
+    h = [F(0)] * N
+    h[s0] = vs[s0] + rng.choice([F(0), F(1, 2), F(1)])           # s0 is updated anyway
+    h[t] = vs[t] + rng.choice([F(0), F(0), eps / 2])             # consistent at t: residual <= margin without a backup
+    h[u] = hu                                                     # optimistic: V*(u) = hu - loss
+    h[g] = F(rng.choice([0, 2]))
+    if extra_init:
+        h[s1] = vs[s1] + rng.choice([F(0), F(1)])
+    first = [a + 1, 2 - a] if rng.random() < 0.75 else [2 - a, a + 1]       # order at t: mostly the verified action first
+    if rng.random() < 0.5:
+        aord = [list(first) for _ in range(N)]                   # one order for all states: shared list / tuple possible
+    else:
+        aord = [rng.sample([1, 2], 2) for _ in range(N)]
+        aord[t] = list(first)
+    m.update(KB=kb, EPS=int(eps * sc), L=rng.choice([3, 4]) if mode == "mc" else rng.choice([3, 10 ** 6]),
+             h=[int(y * sc) for y in h], hkind="deeptie", rand=rand, aord=aord, zl=0, lst=[1] * N,
+             i0=[1 if q > 0 else 0 for q in p0], oracle=1, mode=mode, shared_actions=rng.choice(["", "list", "list", "tuple"]))
+    assert all(int(y * sc) == y * sc for y in h)
+    return m
+
+
 def make_two_scale_case(rng, kind):
     """Rewards r = 2^ka * RA + 2^kb * RB with ka - kb >= 19, exactly representable in doubles but far outside
     32-bit arithmetic: the scale stays symbolic in the spec (mode "judge2", lexicographic oracle).
@@ -1214,6 +1365,9 @@ def make_mc_batch(rng, n, tier, corner=False, budget=None, cap=None, ctx=None):
     if corner:                                        # targeted family, in every first batch
         batch += [make_flip_instance(rng) for _ in range(12 if tier == "quick" else 60)]
         batch += [make_tie_instance(rng) for _ in range(8 if tier == "quick" else 40)]
+        k_ = 4 if tier == "quick" else 20
+        batch += [make_deeptie_instance(rng, rand=0) for _ in range(2 * k_)]
+        batch += [make_deeptie_instance(rng, rand=1) for _ in range(k_)]
     total = 0
     while len(batch) < n and total < budget:
         m = make_mc_instance(rng, FAMS_MC[len(batch) % len(FAMS_MC)], tier)
